@@ -5,10 +5,18 @@ package main
 //
 //	me S <series> S <series> … H <history…> Q <query…>
 //	series  : <hexname>{k=<hexv>,…}@<ts>:<16 hex digits of the float64>,…
+//	          k=#<hexv>: the OTSDB datapoints with an EVEN point index send the value as a bare JSON number ("k":5), the
+//	          others as a JSON string ("k":"5") — the same tag (a tag value is the number's text)
 //	history : p<seriesIdx>.<pointIdx>  ingest that point (OTSDB JSON through writer.AddTimeSeriesEntryToInMemBuf)
+//	          w<seriesIdx>.<pointIdx>  ingest that point through Prometheus remote write (prompb → snappy → HandlePutMetrics):
+//	                                   label values are raw strings there; the same series whatever the protocol
 //	          br  block rotation (open block → TSO/TSG files, segment stays open)      ro  forced segment rotation
 //	query   : <start>/<end>/<style>/<label>~<eq|ne|re|nre>~<hexvalue>;…[/<sum|min|max|avg|count>:<none|by|wo>:<l1+l2|->]
 //	          style b = bare metric name / fn(sel) by (…);  n = {__name__="…"} / fn by (…) (sel)
+//
+//	mc <n> <hexname> <sharedKey>=<hexv> <idKey> <ts> Q <query…>      CARDINALITY: n series name{sharedKey=v,idKey="s<i>"} with
+//	          the single point (ts, float64(i mod 50)), all ingested, no rotation before the queries: more than 65535 series
+//	          share ONE tag value (the tags tree file stores the number of TSIDs of a value in 16 bits)
 //
 // Which datapoints must be ACCEPTED is part of the specification (Spec/Metrics.lean `accepted`): a series without tags
 // and a series with a tag value above 65535 bytes must be rejected at ingest (PropFail e2em/in-class/no-tags resp.
@@ -41,10 +49,13 @@ import (
 
 func init() {
 	register(&Suite{Name: "e2e_metrics", Parallel: 6, Gen: genE2EM, Exec: execE2EM,
-		Rule: "1..5 series (names sharing prefixes; tag sets differing in one value / one key / subsets; keys that are suffixes of other keys; TSID-preimage collision pairs; values with spaces, unicode, punctuation, JSON escapes, 65535/65536+ bytes; series without tags) × float64 values from the adversarial Gorilla pool incl. -0 or small integers × timestamps (irregular steps at dod bucket edges, large gaps, bucket-aligned for every downsample interval used) × ingest histories with out-of-order points and 0..2 block and 0..2 segment rotations × selector and sum/min/max/avg/count by/without queries incl. range boundaries on points, regex on __name__, several matchers on one label; each case in its own engine process, every query answered before and after a final rotation; non-trivial = ≥2 ingested points and ≥1 query"})
+		Rule: "1..5 series (names sharing prefixes; tag sets differing in one value / one key / subsets; keys that are suffixes of other keys; TSID-preimage collision pairs; values with spaces, unicode, punctuation, JSON escapes, 65535/65536+ bytes, values sent as JSON numbers; series without tags) ingested as OpenTSDB JSON, through Prometheus remote write, or both within one series × float64 values from the adversarial Gorilla pool incl. -0 or small integers × timestamps (irregular steps at dod bucket edges, large gaps, bucket-aligned for every downsample interval used) × ingest histories with out-of-order points and 0..2 block and 0..2 segment rotations × selector and sum/min/max/avg/count by/without queries incl. range boundaries on points, regex on __name__, several matchers on one label; plus cardinality lines (65535..131071 series sharing one tag value); each case in its own engine process, every query answered before and after a final rotation; non-trivial = ≥2 ingested points and ≥1 query"})
 }
 
-type mkv struct{ k, v string }
+type mkv struct {
+	k, v string
+	num  bool // sent as a bare JSON number by the OTSDB datapoints with an even point index
+}
 type mpt struct {
 	ts   uint32
 	bits uint64
@@ -103,7 +114,7 @@ func genTagSets(r *rand.Rand, n int, tags map[string]int) [][]mkv {
 	nk := 1 + r.Intn(len(keyFam))
 	var base []mkv
 	for _, k := range keyFam[:nk] {
-		base = append(base, mkv{k, val()})
+		base = append(base, mkv{k: k, v: val()})
 	}
 	sets := [][]mkv{base}
 	cp := func(s []mkv) []mkv { return append([]mkv(nil), s...) }
@@ -128,7 +139,7 @@ func genTagSets(r *rand.Rand, n int, tags map[string]int) [][]mkv {
 				src = append(src[:i], src[i+1:]...)
 			}
 		case 5: // superset
-			src = append(src, mkv{keyFam[r.Intn(len(keyFam))], val()})
+			src = append(src, mkv{k: keyFam[r.Intn(len(keyFam))], v: val()})
 		default: // key/value boundary shifted: {a="bc"} vs {ab="c"} style (no collision in the TSID string: key and value are separated)
 			if len(src) > 0 {
 				i := r.Intn(len(src))
@@ -161,6 +172,13 @@ func genTagSets(r *rand.Rand, n int, tags map[string]int) [][]mkv {
 	return sets
 }
 
+// JSON number literals (RFC 8259); only these are ever sent bare
+var mNumRe = regexp.MustCompile(`^-?(0|[1-9][0-9]*)(\.[0-9]+)?([eE][+-]?[0-9]+)?$`)
+
+// numeric tag values: integers, non-integers that truncate to the same integer (the engine used to hash uint64(float)),
+// exponent forms, more than 64 bits, negative zero, trailing zeros (the TEXT is the value: 5 and 5.0 are different tags)
+var mNumPool = []string{"5", "5.5", "5.0", "6", "-3", "1e3", "0.50", "-0", "100", "12345678901234567890", "0", "1", "7"}
+
 func canonLabels(l []mkv) string {
 	s := append([]mkv(nil), l...)
 	sort.Slice(s, func(i, j int) bool { return s[i].k < s[j].k || (s[i].k == s[j].k && s[i].v < s[j].v) })
@@ -174,7 +192,11 @@ func canonLabels(l []mkv) string {
 func (s mser) token() string {
 	var p []string
 	for _, kv := range s.labels { // order as generated: it is the base of the JSON tag order
-		p = append(p, kv.k+"="+hexs(kv.v))
+		if kv.num {
+			p = append(p, kv.k+"=#"+hexs(kv.v))
+		} else {
+			p = append(p, kv.k+"="+hexs(kv.v))
+		}
 	}
 	var q []string
 	for _, pt := range s.pts {
@@ -189,9 +211,38 @@ func genE2EM(r *rand.Rand, n int, tier string) []string {
 	var out []string
 	tags := map[string]int{}
 	for c := 0; c < n; c++ {
+		if c%150 == 77 {
+			out = append(out, genE2EMCard(r))
+			continue
+		}
 		out = append(out, genE2EMCase(r, tags))
 	}
 	return out
+}
+
+// CARDINALITY line: n series share one tag value, n at / above the largest TSID count one tags-tree block can frame
+func genE2EMCard(r *rand.Rand) string {
+	n := []int{65535, 65536, 65537, 70000, 70000, 66000 + r.Intn(5000), 131071}[r.Intn(7)]
+	name := []string{"cpu", "node_load", "m"}[r.Intn(3)]
+	sk, sv := []string{"env", "dc", "job"}[r.Intn(3)], []string{"prod", "eu-1", "a b", "x"}[r.Intn(4)]
+	ik := []string{"id", "instance", "pod"}[r.Intn(3)]
+	ts := mBase + uint32(r.Intn(30000000))
+	ts -= ts % 3600
+	rng := fmt.Sprintf("%d/%d", ts-100, ts+200)
+	nm := "__name__~eq~" + hexs(name)
+	pick := func() string {
+		return hexs("s" + strconv.Itoa([]int{0, 5, n - 1, n - 2, 65535, 65534, r.Intn(n)}[r.Intn(7)]))
+	}
+	qs := []string{
+		rng + "/b/" + nm + ";" + sk + "~eq~" + hexs(sv) + "/count:none:-",
+		rng + "/b/" + nm + ";" + sk + "~eq~" + hexs(sv) + ";" + ik + "~eq~" + pick(),
+		rng + "/n/" + nm + ";" + ik + "~eq~" + pick(),
+		rng + "/b/" + nm + "/" + []string{"sum", "count", "max"}[r.Intn(3)] + ":by:" + sk,
+		rng + "/b/" + nm + ";" + sk + "~re~" + hexs(".*") + "/count:none:-",
+		rng + "/b/" + nm + ";" + sk + "~ne~" + hexs(sv) + "/count:none:-",
+		rng + "/b/" + nm + ";" + ik + "~re~" + hexs("s"+strconv.Itoa(n - 1)[:4]+".*"),
+	}
+	return fmt.Sprintf("mc %d %s %s=%s %s %d Q %s", n, hexs(name), sk, hexs(sv), ik, ts, strings.Join(qs, " "))
 }
 
 func genE2EMCase(r *rand.Rand, tags map[string]int) string {
@@ -226,9 +277,9 @@ func genE2EMCase(r *rand.Rand, tags map[string]int) string {
 		}
 	case 1:
 		sers = append(sers[:1], mser{name: sers[0].name}, mser{name: sers[0].name})
-		sers[0].labels = []mkv{{"z", "x"}, {"ab", "1"}}
-		sers[1].labels = []mkv{{"z", "xa"}, {"b", "1"}}
-		sers[2].labels = []mkv{{"z", "x"}, {"b", "1"}}
+		sers[0].labels = []mkv{{k: "z", v: "x"}, {k: "ab", v: "1"}}
+		sers[1].labels = []mkv{{k: "z", v: "xa"}, {k: "b", v: "1"}}
+		sers[2].labels = []mkv{{k: "z", v: "x"}, {k: "b", v: "1"}}
 	case 2:
 		sers[r.Intn(len(sers))].labels = nil
 	case 3:
@@ -256,10 +307,10 @@ func genE2EMCase(r *rand.Rand, tags map[string]int) string {
 		// differ only in WHICH tag is empty (the unchanged engine keeps all of them apart)
 		base := append([]mkv(nil), sers[0].labels...)
 		if len(base) == 0 {
-			base = []mkv{{"host", "web1"}}
+			base = []mkv{{k: "host", v: "web1"}}
 		}
 		ek := []string{"zone", "az", "zz", "a0"}[r.Intn(4)]
-		with := append(append([]mkv(nil), base...), mkv{ek, ""})
+		with := append(append([]mkv(nil), base...), mkv{k: ek, v: ""})
 		sers[0].labels = with
 		sers = append(sers, mser{name: sers[0].name, labels: base})
 		if r.Intn(2) == 0 {
@@ -270,15 +321,43 @@ func genE2EMCase(r *rand.Rand, tags map[string]int) string {
 			}
 			x[0].v = v
 			y[0].v = ""
-			sers = append(sers, mser{name: sers[0].name, labels: append(x, mkv{ek + "2", ""})}, mser{name: sers[0].name, labels: append(y, mkv{ek + "2", v})})
+			sers = append(sers, mser{name: sers[0].name, labels: append(x, mkv{k: ek + "2", v: ""})}, mser{name: sers[0].name, labels: append(y, mkv{k: ek + "2", v: v})})
 		}
 		if r.Intn(3) == 0 { // … and one with a single space
-			sers = append(sers, mser{name: sers[0].name, labels: append(append([]mkv(nil), base...), mkv{ek, " "})})
+			sers = append(sers, mser{name: sers[0].name, labels: append(append([]mkv(nil), base...), mkv{k: ek, v: " "})})
 		}
+	case 14, 15, 16, 17, 18, 19:
+		// NUMERIC tag values ("k":5): the value is the number's text; siblings whose numbers truncate to the same integer,
+		// the same text as a string (alternating per point: one series), a string sibling on another series
+		base := append([]mkv(nil), sers[0].labels...)
+		if len(base) == 0 {
+			base = []mkv{{k: "host", v: "web1"}}
+		}
+		i := r.Intn(len(base))
+		a, b := mNumPool[r.Intn(len(mNumPool))], mNumPool[r.Intn(len(mNumPool))]
+		x, y := append([]mkv(nil), base...), append([]mkv(nil), base...)
+		x[i].v, x[i].num = a, true
+		y[i].v, y[i].num = b, r.Intn(3) != 0
+		sers[0].labels = x
+		sers = append(sers, mser{name: sers[0].name, labels: y})
+		if r.Intn(2) == 0 { // same number text, as a string, in a series that differs in another label
+			z := append(append([]mkv(nil), base...), mkv{k: "n0", v: "s"})
+			z[i].v = a
+			sers = append(sers, mser{name: sers[0].name, labels: z})
+		}
+		tags["numeric-tag-value"]++
+	case 20, 21, 22, 23:
+		// label values that JSON would escape, to be sent through remote write as they are
+		s := &sers[r.Intn(len(sers))]
+		if len(s.labels) > 0 {
+			s.labels = append([]mkv(nil), s.labels...)
+			s.labels[r.Intn(len(s.labels))].v = []string{`C:\temp`, `a\qb`, `end\`, `a\\b`, `q"uote`, `\u0041`, `\n`, `\"`, `x\/y`}[r.Intn(9)]
+		}
+		tags["backslash-value"]++
 	case 12, 13:
 		// a tag literally named __name__ (accepted by the ingest path: one more label of the identity), sibling without it
 		s := sers[r.Intn(len(sers))]
-		sers = append(sers, mser{name: s.name, labels: append(append([]mkv(nil), s.labels...), mkv{"__name__", []string{"other", s.name, ""}[r.Intn(3)]})})
+		sers = append(sers, mser{name: s.name, labels: append(append([]mkv(nil), s.labels...), mkv{k: "__name__", v: []string{"other", s.name, ""}[r.Intn(3)]})})
 	}
 	// distinct label keys within a series
 	for i := range sers {
@@ -391,10 +470,22 @@ func genE2EMCase(r *rand.Rand, tags map[string]int) string {
 		p := r.Intn(len(refs) + 1)
 		cut[p] = append(cut[p], "br")
 	}
+	// protocol: OTSDB JSON only (most cases), remote write only, or mixed point by point within every series
+	proto := []int{0, 0, 0, 0, 1, 2, 2}[r.Intn(7)]
+	tags[fmt.Sprintf("proto=%s", []string{"otsdb", "remote-write", "mixed"}[proto])]++
 	for k := 0; k <= len(refs); k++ {
 		hist = append(hist, cut[k]...)
 		if k < len(refs) {
-			hist = append(hist, fmt.Sprintf("p%d.%d", refs[k].i, refs[k].j))
+			c := "p"
+			if proto == 1 || (proto == 2 && r.Intn(2) == 0) {
+				c = "w"
+			}
+			for _, kv := range sers[refs[k].i].labels {
+				if kv.k == "__name__" { // remote write cannot express a second label named __name__
+					c = "p"
+				}
+			}
+			hist = append(hist, fmt.Sprintf("%s%d.%d", c, refs[k].i, refs[k].j))
 		}
 	}
 	tags[fmt.Sprintf("ro=%d", nro)]++
@@ -627,11 +718,12 @@ func parseMSeries(tok string) (s mser, ok bool) {
 			if len(p) != 2 {
 				return
 			}
-			vb, err := hex.DecodeString(p[1])
+			num := strings.HasPrefix(p[1], "#")
+			vb, err := hex.DecodeString(strings.TrimPrefix(p[1], "#"))
 			if err != nil {
 				return
 			}
-			s.labels = append(s.labels, mkv{p[0], string(vb)})
+			s.labels = append(s.labels, mkv{k: p[0], v: string(vb), num: num})
 		}
 	}
 	if ps := tok[j+2:]; ps != "" {
@@ -687,7 +779,11 @@ func dpJSON(s mser, j int) string {
 		if j%3 == 2 {
 			kv = s.labels[(n-1-x+j)%n]
 		}
-		tg = append(tg, jsonStr(kv.k)+":"+jsonStr(kv.v))
+		if kv.num && j%2 == 0 && mNumRe.MatchString(kv.v) {
+			tg = append(tg, jsonStr(kv.k)+":"+kv.v)
+		} else {
+			tg = append(tg, jsonStr(kv.k)+":"+jsonStr(kv.v))
+		}
 	}
 	p := s.pts[j]
 	parts := []string{`"metric":` + jsonStr(s.name), `"tags":{` + strings.Join(tg, ",") + `}`, fmt.Sprintf(`"timestamp":%d`, p.ts), `"value":` + floatText(p.bits)}
@@ -787,9 +883,9 @@ func canonMSeriesID(id string) (name string, labels string) {
 		for _, it := range strings.Split(rest, ",") {
 			kv := strings.SplitN(it, ":", 2)
 			if len(kv) == 2 {
-				l = append(l, mkv{kv[0], kv[1]})
+				l = append(l, mkv{k: kv[0], v: kv[1]})
 			} else {
-				l = append(l, mkv{"?" + hexs(it), ""})
+				l = append(l, mkv{k: "?" + hexs(it), v: ""})
 			}
 		}
 	}
@@ -960,6 +1056,9 @@ func mGoClasses(sers []mser, escaped bool) []string {
 
 func execE2EM(line string) Result {
 	f := strings.Fields(line)
+	if len(f) > 0 && f[0] == "mc" {
+		return execE2EMCard(f)
+	}
 	if len(f) < 4 || f[0] != "me" {
 		return Result{Out: "bad-op"}
 	}
@@ -977,9 +1076,10 @@ func execE2EM(line string) Result {
 	}
 	var in bytes.Buffer
 	npts, nro, nbr := 0, 0, 0
-	escaped := false
+	escaped, rwEscaped, numeric := false, false, false
 	ingested := map[[2]int]bool{}
 	var dpSeries []int // series index of the n-th dp command
+	var dpRW []bool    // … it went through remote write
 	for i++; i < len(f) && f[i] != "Q"; i++ {
 		t := f[i]
 		switch {
@@ -989,7 +1089,7 @@ func execE2EM(line string) Result {
 		case t == "br":
 			in.WriteString("blockrotate\n")
 			nbr++
-		case strings.HasPrefix(t, "p"):
+		case strings.HasPrefix(t, "p"), strings.HasPrefix(t, "w"):
 			x := strings.Split(t[1:], ".")
 			if len(x) != 2 {
 				return Result{Out: "bad-op"}
@@ -999,11 +1099,36 @@ func execE2EM(line string) Result {
 			if e1 != nil || e2 != nil || si < 0 || si >= len(sers) || pj < 0 || pj >= len(sers[si].pts) {
 				return Result{Out: "bad-op"}
 			}
-			js := dpJSON(sers[si], pj)
-			if strings.Contains(js, `\`) {
-				escaped = true
+			if t[0] == 'w' {
+				var ls []string
+				for _, kv := range sers[si].labels {
+					if kv.k == "__name__" {
+						return Result{Out: "bad-op"} // not expressible in remote write: __name__ is the metric name there
+					}
+					ls = append(ls, kv.k+"="+hexs(kv.v))
+					if strings.ContainsAny(kv.v, "\\\"") {
+						escaped, rwEscaped = true, true
+					}
+				}
+				l := strings.Join(ls, ",")
+				if l == "" {
+					l = "-"
+				}
+				fmt.Fprintf(&in, "rw %s %d %016x %s\n", hexs(sers[si].name), sers[si].pts[pj].ts, sers[si].pts[pj].bits, l)
+				dpRW = append(dpRW, true)
+			} else {
+				js := dpJSON(sers[si], pj)
+				if strings.Contains(js, `\`) {
+					escaped = true
+				}
+				for _, kv := range sers[si].labels {
+					if kv.num && pj%2 == 0 && mNumRe.MatchString(kv.v) {
+						numeric = true
+					}
+				}
+				fmt.Fprintf(&in, "dp %s\n", hexs(js))
+				dpRW = append(dpRW, false)
 			}
-			fmt.Fprintf(&in, "dp %s\n", hexs(js))
 			dpSeries = append(dpSeries, si)
 			if mRejectClass(sers[si]) == "" { // the specification: datapoints of the other series are rejected
 				ingested[[2]int{si, pj}] = true
@@ -1070,7 +1195,11 @@ func execE2EM(line string) Result {
 			}
 			rejected[ie.Dp] = true
 			if mRejectClass(sers[dpSeries[ie.Dp]]) == "" {
-				fails = append(fails, PropFail{Sig: "e2em/ingest-rejected", Msg: "a datapoint of the generated (well-formed) class was rejected: " + trunc(l, 300)})
+				sig := "e2em/ingest-rejected"
+				if dpRW[ie.Dp] && rwEscaped { // (repaired) remote write handed raw label values to the JSON string parser
+					sig = "e2em/in-class/remote-write-escape"
+				}
+				fails = append(fails, PropFail{Sig: sig, Msg: "a datapoint of the generated (well-formed) class was rejected: " + trunc(l, 300)})
 			}
 		case strings.HasPrefix(l, `{"roterr"`):
 			fails = append(fails, PropFail{Sig: "e2em/rotate-error", Msg: "rotation failed: " + trunc(l, 300)})
@@ -1107,6 +1236,8 @@ func execE2EM(line string) Result {
 		csig := "e2em-worker/crash/" + site
 		if mOver64k(sers) { // recorded finding: the tags tree file is corrupt after rotation, readers may run out of bounds
 			csig = "e2em/in-class/tag-value-over-64k"
+		} else if numeric { // (repaired) the open-segment value iterator handed out the text of a number under a binary type
+			csig = "e2em/in-class/numeric-tag-value"
 		}
 		return Result{Out: fmt.Sprintf("worker-died err=%v answers=%d/%d", werr, len(resLines), 2*len(qs)),
 			Fails: []PropFail{{Sig: csig, Msg: fmt.Sprintf("metrics engine worker exited abnormally (%v) after %d of %d answers: %s at %s", werr, len(resLines), 2*len(qs), pmsg, site)}}, Nontrivial: true}
@@ -1128,6 +1259,13 @@ func execE2EM(line string) Result {
 		if a != b {
 			sig := "e2em/open-vs-rotated-differ"
 			cl := mGoClasses(sers, escaped)
+			if numeric {
+				cl = append(cl, "numeric-tag-value")
+			}
+			if rwEscaped {
+				cl = append(cl, "remote-write-escape")
+			}
+			sort.Strings(cl)
 			if len(cl) > 0 {
 				sig = "e2em/in-class/" + strings.Join(cl, "+")
 			}
@@ -1135,5 +1273,131 @@ func execE2EM(line string) Result {
 		}
 	}
 	tg := []string{fmt.Sprintf("series=%d", len(sers)), fmt.Sprintf("points<=%d", (npts/10+1)*10), fmt.Sprintf("rotations=%d", nro), fmt.Sprintf("blockrotations=%d", nbr)}
+	nrw := 0
+	for _, w := range dpRW {
+		if w {
+			nrw++
+		}
+	}
+	switch {
+	case nrw == 0:
+		tg = append(tg, "protocol=otsdb")
+	case nrw == len(dpRW):
+		tg = append(tg, "protocol=remote-write")
+	default:
+		tg = append(tg, "protocol=mixed")
+	}
+	if numeric {
+		tg = append(tg, "numeric-tag-value")
+	}
+	if rwEscaped {
+		tg = append(tg, "remote-write-backslash-or-quote")
+	}
 	return Result{Out: strings.Join(segs, " | "), Fails: fails, Nontrivial: npts >= 2 && len(qs) >= 1, Tags: tg}
 }
+
+// ---------------------------------------------------------------- cardinality lines
+
+var mLabelNameRe = regexp.MustCompile(`^[a-zA-Z_][a-zA-Z0-9_]*$`)
+
+// mc <n> <hexname> <sharedKey>=<hexv> <idKey> <ts> Q <query…>
+func execE2EMCard(f []string) Result {
+	if len(f) < 8 || f[6] != "Q" {
+		return Result{Out: "bad-op"}
+	}
+	n, e1 := strconv.Atoi(f[1])
+	nb, e2 := hex.DecodeString(f[2])
+	sh := strings.Split(f[3], "=")
+	ts, e3 := strconv.ParseUint(f[5], 10, 32)
+	if e1 != nil || e2 != nil || e3 != nil || len(sh) != 2 || n < 1 || n > 200000 || !mLabelNameRe.MatchString(sh[0]) || !mLabelNameRe.MatchString(f[4]) ||
+		sh[0] == f[4] || sh[0] == "__name__" || f[4] == "__name__" || !regexp.MustCompile(`^[0-9]+$`).MatchString(f[1]) || !regexp.MustCompile(`^[0-9]+$`).MatchString(f[5]) {
+		return Result{Out: "bad-op"}
+	}
+	svb, e4 := hex.DecodeString(sh[1])
+	if e4 != nil || !utf8Valid(nb) || !utf8Valid(svb) {
+		return Result{Out: "bad-op"}
+	}
+	var qs []mQuery
+	for _, t := range f[7:] {
+		q, ok := parseMQuery(t)
+		if !ok {
+			return Result{Out: "bad-op"}
+		}
+		qs = append(qs, q)
+	}
+	var in bytes.Buffer
+	for i := 0; i < n; i++ {
+		js := fmt.Sprintf(`{"metric":%s,"tags":{%s:%s,%s:"s%d"},"timestamp":%d,"value":%d}`, jsonStr(string(nb)), jsonStr(sh[0]), jsonStr(string(svb)), jsonStr(f[4]), i, ts, i%50)
+		fmt.Fprintf(&in, "dp %s\n", hexs(js))
+	}
+	for phase := 0; phase < 2; phase++ {
+		for _, q := range qs {
+			fmt.Fprintf(&in, "q %d %d %s\n", q.start, q.end, hexs(q.promql))
+		}
+		if phase == 0 {
+			in.WriteString("rotate\n")
+		}
+	}
+	cmd := exec.Command(os.Args[0], "mworker")
+	cmd.Stdin = &in
+	var stdout, stderr bytes.Buffer
+	cmd.Stdout = &stdout
+	cmd.Stderr = &stderr
+	cmd.Env = append(os.Environ(), "GOMEMLIMIT=3GiB", "GOMAXPROCS=4")
+	done := make(chan error, 1)
+	if err := cmd.Start(); err != nil {
+		return Result{Out: "worker-start-failed"}
+	}
+	go func() { done <- cmd.Wait() }()
+	var werr error
+	select {
+	case werr = <-done:
+	case <-time.After(300 * time.Second):
+		cmd.Process.Kill()
+		<-done
+		return Result{Out: "worker-timeout", Fails: []PropFail{{Sig: "e2em-worker/timeout", Msg: "metrics engine worker did not finish within 300 s"}}, Nontrivial: true}
+	}
+	cls := ""
+	if n > 65535 {
+		cls = "tsids-per-value-over-64k"
+	}
+	insig := func(s string) string {
+		if cls != "" {
+			return "e2em/in-class/" + cls
+		}
+		return s
+	}
+	var resLines []string
+	var fails []PropFail
+	for _, l := range strings.Split(strings.TrimSpace(stdout.String()), "\n") {
+		switch {
+		case strings.HasPrefix(l, `{"dp"`), strings.HasPrefix(l, `{"ingesterr"`):
+			if len(fails) < 3 {
+				fails = append(fails, PropFail{Sig: "e2em/ingest-rejected", Msg: "a datapoint of the generated (well-formed) class was rejected: " + trunc(l, 300)})
+			}
+		case strings.HasPrefix(l, `{"roterr"`):
+			fails = append(fails, PropFail{Sig: insig("e2em/rotate-error"), Msg: "rotation failed: " + trunc(l, 300)})
+		case strings.HasPrefix(l, "{"):
+			resLines = append(resLines, l)
+		}
+	}
+	if werr != nil || len(resLines) != 2*len(qs) {
+		return Result{Out: fmt.Sprintf("worker-died err=%v answers=%d/%d", werr, len(resLines), 2*len(qs)),
+			Fails: []PropFail{{Sig: insig("e2em-worker/crash/cardinality"), Msg: fmt.Sprintf("metrics engine worker exited abnormally (%v) after %d of %d answers: %s", werr, len(resLines), 2*len(qs), trunc(stderr.String(), 300))}}, Nontrivial: true}
+	}
+	var segs []string
+	for qi, q := range qs {
+		a := canonMAnswer(resLines[qi], q.agg)
+		b := canonMAnswer(resLines[len(qs)+qi], q.agg)
+		segs = append(segs, a)
+		if q.agg {
+			a, b = stripAggNames(a), stripAggNames(b)
+		}
+		if a != b {
+			fails = append(fails, PropFail{Sig: insig("e2em/open-vs-rotated-differ"), Msg: fmt.Sprintf("query %d (%s) over %d series sharing %s=%q answered differently after the forced rotation: before %s ; after %s", qi, q.promql, n, sh[0], string(svb), trunc(a, 300), trunc(b, 300))})
+		}
+	}
+	return Result{Out: strings.Join(segs, " | "), Fails: fails, Nontrivial: true, Tags: []string{"cardinality", fmt.Sprintf("series>65535=%v", n > 65535)}}
+}
+
+func utf8Valid(b []byte) bool { return strings.ToValidUTF8(string(b), "\uFFFD") == string(b) }
